@@ -204,15 +204,15 @@ check('C10', 'specs/BlobExchange.tla + specs/MCBlobExchange.tla + specs/BlobExch
       'checks of _download_blob, both timeouts, fatal handler errors) against every stream of the honest set (header whole or split, every content '
       'incl. data that itself parses as a response) and of the misbehaviour catalogue (wrong hash, wrong length, corrupted at every position, '
       'truncated then silent, excess, unsolicited, garbage, second header, error responses), under every re-chunking, with the length known or unknown, '
-      'for blobs of 2,3(,4) units: NeverPoisoned, HonestCompletes, Terminates, ClosedOnFailure, NoLengthPoison; negative control: the header rule of '
-      'the code as found violates HonestCompletes. Leg C: every stream TLC emits is made concrete and fed to the real BlobExchangeClientProtocol + '
+      'for blobs of 2,3(,4) units: NeverPoisoned, HonestCompletes, Terminates, ClosedOnFailure, NoLengthPoison; negative controls: the header rule of '
+      'the code as found violates HonestCompletes, the announced length kept on the shared blob object violates NoLengthPoison. Leg C: every stream TLC emits is made concrete and fed to the real BlobExchangeClientProtocol + '
       'BlobFile under every unit-level re-chunking plus 1-byte/64-byte/random cuts (1400 runs quick); a request catalogue (split, oversized, malformed, '
       'unknown and unverified blobs) runs against the real BlobServerProtocol over a real BlobManager, followed by a second connection; real client and '
       'real server exchange three blobs (1 B..2 MiB) on one connection under four re-chunkings. Every run is one record judged by TLC '
       '(BlobExchangeTrace.tla): never poisoned, no file left, honest completes, ends within the timeouts, closed on failure, server sends only '
       'verified blobs under an exact header, closes on garbage, keeps serving.',
       'Trusted: TCP replaced by driver-fed transports behaving like selector transports (a raising data_received closes the connection); virtual time. '
-      'KNOWN FINDING (listed, not repaired): a wrong announced length sticks on a blob whose length was unknown.',
+      'The length-poisoning defect (a wrong announced length sticking on a blob whose length was unknown) was a known finding and is now repaired (19ea4a3); the model keeps the old design as the negative control PERCONN = FALSE.',
       'TLC exhaustive protocol model with negative control + TLC-judged runs of the real client and server protocols', 'DESIGN.md 5/C10')
 
 check('C15', 'specs/Script.tla + harness/c15_script.py',
